@@ -24,6 +24,10 @@ ENGINES.append({"name": "H3-hal", "path": "harness/hal_harness.c + engines/hal.p
                                   "(device_manager_get_driver interposed at link time); bounded-exhaustive + random call "
                                   "sequences under ASan+UBSan"})
 
+ENGINES.append({"name": "H5-props", "path": "harness/props_harness.cpp + engines/props.py", "serves_properties": ["C13"],
+                "kind_free_text": "real props/storage.c driven by random API histories against a C++ value model; "
+                                  "malloc/realloc/free of the code under test interposed at link time; ASan+UBSan; memcheck in thorough"})
+
 CHECKS = {
     "C01": dict(
         engine="H1-channel", technique="runtime monitoring: reference-model oracle over controlled interleavings + sanitizer stress",
@@ -61,6 +65,14 @@ CHECKS = {
              "call. Longer random sequences add get/meta/reserve/re-open and open/describe failures. Exhaustive only "
              "within the stated length bound.",
         note="devices with missing interface functions are outside the quantifier; ASan quarantine bounds use-after-free detection"),
+    "C13": dict(
+        engine="H5-props", technique="runtime monitoring: value-model oracle + allocator-event ledger (link-time malloc/free wrappers) + ASan",
+        level="exploration", design_ref="DESIGN.md section 4 / H5 / C13",
+        text="10^4-10^6 random histories over 4 objects; after every call all fields of all live objects are compared with "
+             "a value model, pointer sets must be disjoint, copy sources unchanged; the allocator ledger proves "
+             "exactly-once release per history; ASan catches over-reads of exact-size unterminated inputs and "
+             "use-after-free; memcheck (thorough) looks for uninitialised reads.",
+        note="trusts the ~60-line value model; no allocation-failure injection; copy onto itself is outside the quantifier"),
 }
 
 PENDING_REASON = "check not built yet in this round (planned in DESIGN.md section 4; will be claimed once its harness exists)"
